@@ -356,9 +356,19 @@ func (c *Client) sendRecv(tm message, rm message) error {
 		// delivered: resp goes back to the pool now, and whoever gets it
 		// next, on this or any other Client, must not find a stale result
 		// in it or be handed a reply decoded for this request.
+		//
+		// What a failed send has left on the wire is unknown - nothing, a
+		// part of the frame, or all of it: the peer may answer the request
+		// after all, and whatever is written next may land behind half a
+		// frame. The connection is broken: the tag is not used again, and
+		// later calls fail with this error before sending anything.
+		reuseTag = false
 		c.pendingMu.Lock()
 		if c.pending[tag(t)] == resp {
 			delete(c.pending, tag(t))
+		}
+		if _, ok := err.(ConnError); ok && c.connErr == nil {
+			c.connErr = err
 		}
 		c.pendingMu.Unlock()
 		select {
